@@ -61,3 +61,10 @@ claim("C09", "model_checking", "transition-system closure (BFS) over the real wr
       "write_pdb/parse_pdb_atoms/write_cif/parse_cif_atoms up to depth 2 (quick) / 3 (thorough) reach only states whose PDB view equals the start table; "
       "every written PDB text obeys the 80-column layout, MODEL/ENDMDL bracketing and TER-after-every-chain.",
       "Independent emitters and column reader in mc/enumio.py; values are within PDB field widths.", "DESIGN.md 3/C09")
+
+claim("C10", "exploration", "exhaustive enumeration of a finite product of atom tables on the real code against an independent fit/feasibility/renaming oracle",
+      "For the full product of chain counts {1,2,3,62,63} x id lengths x residue-number classes x first serials x insertion codes x models x atoms per "
+      "residue x extra fields x source format, plus a 10000-residue chain and (thorough) >99999-atom tables: can_write_pdb agrees with the limits, fitting "
+      "tables are returned unchanged, unfittable ones raise ValueError, and every fitted table is within limits, keeps atom order and fields, renames "
+      "chains/residues one-to-one preserving grouping and survives write_pdb + parse_pdb_atoms.",
+      "Tables are built by the library's own parsers from independently emitted text; PDB-derived tables are within limits by construction.", "DESIGN.md 3/C10")
